@@ -2,11 +2,15 @@
    Model: Model/WritePool.v (the dispatcher over three queues with one guard at a time;
    tasks holding and requesting ranked locks).  Proofs: Proofs/WritePoolProofs.v.
    PARTIAL: tokio scheduling, timeouts (5 min per step of write_inner) and the fairness of the
-   underlying semaphore are runtime; which locks each of the agent's activities takes, and in
-   which order, is written down by hand below (not extracted from the source) and exercised by
-   a watchdog run on a real agent. *)
+   underlying semaphore are runtime.  Which locks each function of the agent takes, in which
+   order and for how long, is READ FROM THE SOURCE on every run (tools/lockorder2coq.py ->
+   Gen/LockOrder.v: every non-test function that takes the write connection, the bookie or a
+   per-actor bookkeeping lock, as acquire / release steps; guard lifetimes approximated
+   textually, erring towards "held longer"; nested lock-taking calls fail closed); the older
+   hand-written activity table is kept below as a second reading and exercised by a watchdog
+   run on a real agent. *)
 From Coq Require Import List ZArith Bool Lia.
-From Corro Require Import Model.WritePool Proofs.WritePoolProofs.
+From Corro Require Import Model.WritePool Model.LockSeq Gen.LockOrder Proofs.WritePoolProofs.
 Import ListNotations.
 Open Scope Z_scope.
 
@@ -61,7 +65,6 @@ Print Assumptions C20_ordered_locks_never_deadlock.
    lookup `bookie.write(..).ensure(actor)` / the clone of the map and released before the next
    lock is requested, so it ranks ABOVE the per-actor locks: rank 0, 1, then 10+a by actor, then the
    bookie.  Every point of every activity is an ordered task, so no mix of them can deadlock. *)
-Inductive lstep := Acq (l : Z) | Rel (l : Z).
 Definition act_local_write := [Acq 0; Acq 1; Acq 10; Rel 10; Rel 1; Rel 0].
 Definition per_actor (a : Z) := [Acq 2; Rel 2; Acq (10 + a); Rel (10 + a)].
 Definition act_remote_apply :=                      (* a batch with changes of actors 0, 1, 2: three passes over the actors *)
@@ -74,14 +77,6 @@ Definition act_buffered_apply := [Acq 0; Acq 1; Acq 2; Rel 2; Acq 11; Rel 11; Re
 Definition act_generate_sync := [Acq 2; Rel 2; Acq 10; Rel 10; Acq 11; Rel 11; Acq 12; Rel 12].
 Definition act_clear_buffered := [Acq 0; Acq 1; Rel 1; Rel 0].
 Definition agent_rank (l : Z) : Z := if l =? 2 then 1000 else l.
-
-(* the task a thread is at every acquire of its activity: what it holds, what it wants *)
-Fixpoint points (a : list lstep) (held : list Z) : list task :=
-  match a with
-  | [] => [mkTask held None]
-  | Acq x :: t => mkTask held (Some x) :: points t (held ++ [x])
-  | Rel x :: t => points t (filter (fun h => negb (h =? x)) held)
-  end.
 
 Fixpoint prefixes (l : list Z) (held : list Z) : list task :=
   match l with
@@ -105,6 +100,35 @@ Proof. vm_compute. split; reflexivity. Qed.
 Example C20_swapped_order_is_not_ordered :
   forallb (ordered (fun x => x)) (prefixes [2; 0] []) = false.
 Proof. vm_compute. reflexivity. Qed.
+
+(* ---- the lock sites of the CURRENT source ---- *)
+(* natural ranks: connection 0 < permit 1 < bookie 2 < per-actor bookkeeping 10, 11, .. *)
+Definition src_rank (l : Z) : Z := l.
+Definition src_points : list task := flat_map (fun a => points (snd a) []) src_activities.
+
+(* at every acquire of every lock-taking function of the source, the requested lock ranks above
+   everything the function holds at that point (this is the theorem a swapped or nested lock
+   acquisition in the source breaks) *)
+Theorem C20_source_lock_sites_are_ordered : forallb (ordered src_rank) src_points = true.
+Proof. vm_compute. reflexivity. Qed.
+Print Assumptions C20_source_lock_sites_are_ordered.
+
+(* hence: any number of threads, each at any point of any of these functions, is never stuck *)
+Theorem C20_source_activities_never_deadlock : forall ts : list task,
+  ts <> [] -> (forall t, In t ts -> In t src_points) ->
+  exists i t, nth_error ts i = Some t /\ can_step ts i t = true.
+Proof.
+  intros ts Hne Hin. apply (C20_ordered_locks_never_deadlock src_rank ts Hne).
+  apply forallb_forall. intros t Ht.
+  pose proof C20_source_lock_sites_are_ordered as H. rewrite forallb_forall in H. exact (H t (Hin t Ht)).
+Qed.
+Print Assumptions C20_source_activities_never_deadlock.
+
+(* the generated table is not empty and contains the writers the property names *)
+Example C20_source_table_nonvacuous :
+  (10 <= length src_activities)%nat /\ (40 <= length src_points)%nat /\
+  existsb (fun t => match t_wants t with Some 10 => existsb (Z.eqb 0) (t_holds t) | _ => false end) src_points = true.
+Proof. vm_compute. repeat split; try reflexivity; apply Nat.leb_le; reflexivity. Qed.
 
 Example C20_nonvacuous :
   (* the connection is held; low 1, normal 2, priority 3, priority 4 queue up; 3 is cancelled;
